@@ -8,8 +8,8 @@ for l in open('/verif/work/seeded_results.jsonl'):
     name = re.sub(r'-retest\d*$', '', r['name'])
     res.setdefault(name, []).append(r)
 NEEDS = json.load(open('/verif/scripts/seed_needs.json')) if os.path.exists('/verif/scripts/seed_needs.json') else {}
-for d in sorted(glob.glob('/tmp/mut/C*.out/[AB]')):
-    pid = re.search(r'/(C\d+)\.out', d).group(1)
+for d in sorted(glob.glob('/tmp/mut/C*.out/[AB]') + glob.glob('/tmp/mut/R2C*.out/[AB]')):
+    pid = re.search(r'/((?:R2)?C\d+)\.out', d).group(1)
     var = os.path.basename(d)
     name = f'{pid}-{var}'
     if not os.path.exists(f'{d}/patch.diff'):
